@@ -101,6 +101,10 @@ U32 = Ty("u32", _uint(32), "uint")
 U64 = Ty("u64", _uint(64), "uint")
 I32 = Ty("i32", _int(32), "int")
 I64 = Ty("i64", _int(64), "int")
+# 128-bit primitives travel as JSON *numbers* (cosmwasm's own Uint128 as a string): not part of the general universe (see
+# DESIGN: C03 finding "u128 fields"), used for reply payloads and by the dedicated `wide` programs
+U128 = Ty("u128", _uint(128), "uint")
+I128 = Ty("i128", _int(128), "int")
 STRING = Ty("String", _string, "string")
 UINT128 = Ty("Uint128", _uint128, "uint128")
 ADDR = Ty("Addr", _addr, "addr")
